@@ -31,7 +31,11 @@ CrossLists == {Case("flat", g, "to+cc+bcc+audience", "cross-lists",
                     With(With(With(With(BaseV(g, 1), "to", ListOf(<<ObjVal, I1>>)), "cc", ListOf(<<I1, ActorVal, Iri(ObjVal.p.id.s)>>)),
                               "bcc", ListOf(<<ActorVal, I2, ObjVal2>>)), "audience", ListOf(<<I1, ActorVal>>)))
                : g \in {"Activity", "Object", "Actor", "Question"}}
-AllFlat == SingleOK \cup ListCases \cup FrameCases \cup IdlessRoots \cup CrossLists
+\* roots typed with the generic names (Object, Activity, IntransitiveActivity are ActivityStreams core types; Actor is the library's)
+GenericRoots == {Case("flat", c.lab.g, c.lab.t, "generic-root:" \o c.lab.shape, With(c.v, "type", Str(c.lab.g)))
+                 : c \in {d \in SingleOK : d.lab.shape \in {"object", "actor", "iri", "link"} /\ d.lab.g \in {"Object", "Activity", "IntransitiveActivity", "Actor"}}}
+                \cup {Case("flat", g, "to", "generic-root:list", With(With(BaseV(g, 1), "type", Str(g)), "to", ListOf(<<ObjVal, I1, ActorVal>>))) : g \in {"Object", "Activity", "Actor"}}
+AllFlat == GenericRoots \cup SingleOK \cup ListCases \cup FrameCases \cup IdlessRoots \cup CrossLists
 GenInit == orig = NilItem /\ val = NilItem /\ phase = "gen"
 GenNext == FALSE /\ UNCHANGED vars
 ASSUME ndJsonSerialize("c16_cases.ndjson", SetToSeq(AllFlat))
